@@ -757,11 +757,12 @@ END SELECT
 
 
 # characters that str.splitlines() treats as line boundaries but the language does not
-# (form feed, vertical tab, FS/GS/RS, NEL): inside a literal, a comment, a DATA item, a REM
+# (form feed, vertical tab, FS/GS/RS/US; NEL U+0085 is left out: it is not a cp437
+# character, and a literal holding it fails in the assembler - finding D36 of C06, not a static rule): inside a literal, a comment, a DATA item, a REM
 P('control_chars_inside_lines', '''
 s$ = "a\x0cb" + "c\x0bd"
 PRINT s$; "x\x1cy\x1dz\x1ew" ' note \x0c more \x0b text
-DATA p\x0cq, "r\x85s"
+DATA p\x0cq, "r\x1fs"
 READ a$, b$
 PRINT a$; b$
 REM tail \x0c NEXT \x1c WEND
